@@ -1,5 +1,6 @@
 // Copyright (c) 2015-2017, RAPtor Developer Team
 // License: Simplified BSD, http://opensource.org/licenses/BSD-2-Clause
+#include <cfloat>
 #include "core/matrix.hpp"
 
 using namespace raptor;
@@ -56,7 +57,7 @@ CSRMatrix* classical_strength(CSRMatrix* A, double theta, int num_variables, int
             {
                 if (diag < 0.0) // find max off-diag value in row
                 {
-                    row_scale = -RAND_MAX;
+                    row_scale = -DBL_MAX;
                     for (int j = start; j < end; j++)
                     {
                         val = A->vals[j];
@@ -68,7 +69,7 @@ CSRMatrix* classical_strength(CSRMatrix* A, double theta, int num_variables, int
                 }
                 else // find min off-diag value in row
                 {
-                    row_scale = RAND_MAX;
+                    row_scale = DBL_MAX;
                     for (int j = start; j < end; j++)
                     {
                         val = A->vals[j];
@@ -83,7 +84,7 @@ CSRMatrix* classical_strength(CSRMatrix* A, double theta, int num_variables, int
             {
                 if (diag < 0.0) // find max off-diag value in row
                 {
-                    row_scale = -RAND_MAX;
+                    row_scale = -DBL_MAX;
                     for (int j = start; j < end; j++)
                     {
                         col = A->idx2[j];
@@ -99,7 +100,7 @@ CSRMatrix* classical_strength(CSRMatrix* A, double theta, int num_variables, int
                 }
                 else // find min off-diag value in row
                 {
-                    row_scale = RAND_MAX;
+                    row_scale = DBL_MAX;
                     for (int j = start; j < end; j++)
                     {
                         col = A->idx2[j];
@@ -247,7 +248,7 @@ CSRMatrix* symmetric_strength(CSRMatrix* A, double theta)
             if (diag < 0.0) // find max off-diag value in row
             {
                 neg_diags[i] = 1;
-                row_scale = -RAND_MAX;
+                row_scale = -DBL_MAX;
                 for (int j = start; j < end; j++)
                 {
                     val = A->vals[j];
@@ -260,7 +261,7 @@ CSRMatrix* symmetric_strength(CSRMatrix* A, double theta)
             else // find min off-diag value in row
             {
                 neg_diags[i] = 0;
-                row_scale = RAND_MAX;
+                row_scale = DBL_MAX;
                 for (int j = start; j < end; j++)
                 {
                     val = A->vals[j];
